@@ -59,7 +59,7 @@ fn unit(r: &mut Rng, units: &[&str]) -> String {
     // one unit in six comes from the bundled units file itself (names, symbols, aliases)
     let d = crate::dict::get();
     let u = if !d.units.is_empty() && r.chance(1, 6) { r.pick(&d.units).clone() } else { r.pick_str(units).to_string() };
-    match r.below(8) {
+    match r.below(10) {
         0 => u.to_uppercase(),
         1 => {
             let mut c = u.chars();
@@ -67,6 +67,14 @@ fn unit(r: &mut Rng, units: &[&str]) -> String {
                 Some(f) => f.to_uppercase().collect::<String>() + c.as_str(),
                 None => u,
             }
+        }
+        // near misses of a known unit: the name plus a suffix, or minus its last character - what a
+        // lookup keyed by a prefix, a truncated or a stemmed form of the word confuses with the unit
+        2 if !u.is_empty() => format!("{u}{}", r.pick_str(&["s", "es", ",", ".", ")", "x", "fuls", "mes"])),
+        3 if u.chars().count() > 2 => {
+            let mut c: Vec<char> = u.chars().collect();
+            c.pop();
+            c.into_iter().collect()
         }
         _ => u,
     }
@@ -191,6 +199,8 @@ fn step(r: &mut Rng, seen: &mut Vec<String>, invalid: bool) -> String {
                     s.push_str(r.pick_str(WORDS));
                 }
             }
+            // a quantity in running text (inline quantities): any number spelling, any unit token
+            8 => s.push_str(&format!("{} {}", number(r), unit(r, UNITS))),
             _ => s.push_str(r.pick_str(WORDS)),
         }
         if r.chance(1, 10) {
